@@ -7,6 +7,7 @@ CONSTANTS
   Shapes <- %s
   Types = {%s}
   RasDims <- %s
+  ScaleSets <- %s
   MaxObjs = %d
   MaxOps = %d
   Mix = %s
@@ -15,14 +16,15 @@ CONSTANTS
 CHECK_DEADLOCK FALSE
 '''
 def q(xs): return ", ".join('"%s"' % x for x in xs)
-def cfg(name, sw, rw, shapes, types, rdims, mo, ops, mode, mix):
-    open("Gen_Interop_%s.cfg" % name, "w").write(base % (q(sw), q(rw), shapes, q(types), rdims, mo, ops, "TRUE" if mix else "FALSE",
+def cfg(name, sw, rw, shapes, types, rdims, mo, ops, mode, mix, scales="ScalesAll"):
+    open("Gen_Interop_%s.cfg" % name, "w").write(base % (q(sw), q(rw), shapes, q(types), rdims, scales, mo, ops, "TRUE" if mix else "FALSE",
         {"cover": "VIEW view\nCONSTRAINT Bound\n", "hist": "CONSTRAINT Bound\n", "sim": ""}[mode], "EmitFull" if mode == "sim" else "EmitAudited"))
 ALLT = ["i8", "u8", "i16", "u16", "i32", "u32", "f32", "f64", "c8", "uc8"]
 # every sequence of <= 2 (3) writes + listings in between, all types and three ranks
-cfg("pairs_sds", ["DFSD", "SD", "NC"], [], "ShapesA", ALLT, "RDimsNone", 4, 4, "hist", True)
+cfg("pairs_sds", ["DFSD", "SD", "NC"], [], "ShapesA", ALLT, "RDimsNone", 4, 4, "hist", True, "ScalesNo")
+cfg("scales_sds", ["DFSD", "SD"], [], "ShapesA", ["i16", "f32", "u8"], "RDimsNone", 6, 4, "hist", False)
 cfg("pairs_ras", [], ["DFR8", "DF24", "GR"], "ShapesNone", [], "RDimsA", 6, 4, "hist", True)
-cfg("clear_sds", ["DFSD", "SD", "NC"], [], "ShapesA", ["i8", "u16", "f32", "f64", "uc8"], "RDimsNone", 6, 5, "hist", False)
+cfg("clear_sds", ["DFSD", "SD", "NC"], [], "ShapesA", ["i8", "u16", "f32", "f64", "uc8"], "RDimsNone", 6, 5, "hist", False, "ScalesNo")
 cfg("clear_ras", [], ["DFR8", "DF24", "GR"], "ShapesNone", [], "RDimsA", 8, 5, "hist", False)
 cfg("sim", ["DFSD", "SD", "NC"], ["DFR8", "DF24", "GR"], "ShapesB", ["i8", "u16", "i32", "f32", "f64", "c8"], "RDimsB", 13, 10, "sim", False)
 cfg("simmix", ["DFSD", "SD", "NC"], ["DFR8", "DF24", "GR"], "ShapesB", ["i8", "u16", "i32", "f32", "f64", "c8"], "RDimsB", 13, 10, "sim", True)
